@@ -54,6 +54,7 @@ ContentItem(c) ==
 ToolDescriptor(t) == IsObj(t) /\ StrField(t, "name") /\ OptStr(t, "description") /\ ObjField(t, "inputSchema")
 PromptDescriptor(p) == IsObj(p) /\ StrField(p, "name") /\ OptStr(p, "description") /\ (Has(p, "arguments") => IsArr(Get(p, "arguments")))
 ResourceDescriptor(r) == IsObj(r) /\ StrField(r, "uri") /\ StrField(r, "name") /\ OptStr(r, "mimeType")
+TemplateDescriptor(t) == IsObj(t) /\ StrField(t, "name") /\ Has(t, "uriTemplate") /\ OptStr(t, "description") /\ OptStr(t, "mimeType")
 PromptMessage(pm) == IsObj(pm) /\ StrField(pm, "role") /\ Get(pm, "role").v \in {"user", "assistant"}
                      /\ Has(pm, "content") /\ ContentItem(Get(pm, "content"))
 
@@ -70,5 +71,7 @@ ResultShape(method, r) ==
        [] method = "prompts/get" -> ArrField(r, "messages") /\ All(Get(r, "messages"), PromptMessage) /\ OptStr(r, "description")
        [] method = "resources/list" -> ArrField(r, "resources") /\ All(Get(r, "resources"), ResourceDescriptor)
        [] method = "resources/read" -> ArrField(r, "contents") /\ All(Get(r, "contents"), ResourceContents)
+       [] method = "resources/templates/list" -> ArrField(r, "resourceTemplates") /\ All(Get(r, "resourceTemplates"), TemplateDescriptor)
+       [] method = "completion/complete" -> ObjField(r, "completion") /\ ArrField(Get(r, "completion"), "values")
        [] OTHER -> TRUE
 =============================================================================
